@@ -4,6 +4,8 @@ use crate::ev::Ctx;
 use serde_json::Value;
 
 pub mod c02;
+pub mod c15;
+pub mod c17;
 
 pub fn run(ctx: &mut Ctx) {
     // regression tier: committed shrunk failures and golden inputs bypass the generators
@@ -15,6 +17,8 @@ pub fn run(ctx: &mut Ctx) {
     ctx.extra.insert("replayed_regression_inputs".into(), serde_json::json!(n));
     match ctx.property.as_str() {
         "C02" => c02::run(ctx),
+        "C15" => c15::run(ctx),
+        "C17" => c17::run(ctx),
         other => crate::ev::inconclusive(&format!("no check registered for {other}")),
     }
 }
@@ -22,6 +26,8 @@ pub fn run(ctx: &mut Ctx) {
 pub fn replay(ctx: &mut Ctx, v: &Value) {
     match ctx.property.as_str() {
         "C02" => c02::replay(ctx, v),
+        "C15" => c15::replay(ctx, v),
+        "C17" => c17::replay(ctx, v),
         other => crate::ev::inconclusive(&format!("no replay for {other}")),
     }
 }
